@@ -1,8 +1,100 @@
 import MetadorModel.Py.DrvLib
-/-! Driver stub (to be filled in). -/
-open MetadorModel
+import MetadorModel.Model.Bytes
+/-!
+Driver for the byte-wrapping model (C17). Byte strings and paths are hex, `-` = empty.
+SHA-256 is not computed here: `pack` brings the digest of its content; the table serves as
+`hexdigest` of the `HashLib` parameter (unknown content answers `?`).
 
-def step (s : Unit) : List String → Unit × String
+```
+wrap <bytes>                      `_h5_wrap_bytes`        → void <bytes> | empty
+isdel <kind> <bytes>              `_is_del_mark`          → T | F      kind: void|empty|str|fixed
+guard <kind> <bytes>              `_guard_value`          → ok | err ValueError
+rt <kind> <bytes>                 HDF5 store + read back  → ok <kind> <bytes> | err ValueError
+chunks <n> <bytes>                read loop               → c <len>*
+pack <h5|ih5> <path> <bytes> <sha256 hex>   `pack_file`   → ok | err ValueError
+read <path>                       `node[()]` + core.file  → some <bytes> <size> <sha> | some <bytes> nometa | none
+```
+-/
+open MetadorModel MetadorModel.Drv MetadorModel.Bytes
+
+def hexS (s : Str) : String := if s.isEmpty then "-" else hex (s.map Char.toNat)
+def hexB (b : Bytes) : String := if b.isEmpty then "-" else hex (b.map UInt8.toNat)
+
+def unhexS (s : String) : Option Str :=
+  if s == "-" then some [] else (unhex s.toList).map (fun l => l.map Char.ofNat)
+
+def unhexB (s : String) : Option Bytes :=
+  if s == "-" then some [] else (unhex s.toList).map (fun l => l.map (fun n => UInt8.ofNat n))
+
+def mkVal (kind : String) (b : Bytes) : Option H5Val :=
+  match kind with
+  | "void" => some (.void b)
+  | "empty" => if b.isEmpty then some .empty else none
+  | "str" => some (.str b)
+  | "fixed" => some (.fixed b)
+  | _ => none
+
+def showVal : H5Val → String
+  | .void b => "void " ++ hexB b
+  | .empty => "empty"
+  | .str b => "str " ++ hexB b
+  | .fixed b => "fixed " ++ hexB b
+
+def showErr : Err → String
+  | .valueError => "err ValueError"
+  | .typeError => "err TypeError"
+
+structure St where
+  tbl : List (Bytes × Str) := []
+  store : Store := ⟨[], []⟩
+
+def mkHL (s : St) : HashLib Bytes where
+  new _ := []
+  blockSize _ := 64
+  update st c := st ++ c
+  hexdigest st :=
+    match s.tbl.find? (fun e => e.1 == st) with
+    | some e => e.2
+    | none => ['?']
+
+def step (s : St) : List String → St × String
+  | ["wrap", b] =>
+    match unhexB b with
+    | some b => (s, showVal (wrapBytes b))
+    | none => (s, "bad-op")
+  | ["isdel", k, b] =>
+    match (unhexB b).bind (mkVal k) with
+    | some v => (s, if isDelMark v then "T" else "F")
+    | none => (s, "bad-op")
+  | ["guard", k, b] =>
+    match (unhexB b).bind (mkVal k) with
+    | some v => (s, match guardValue v with | .ok _ => "ok" | .error e => showErr e)
+    | none => (s, "bad-op")
+  | ["rt", k, b] =>
+    match (unhexB b).bind (mkVal k) with
+    | some v => (s, match h5Store v with | .ok v' => "ok " ++ showVal v' | .error e => showErr e)
+    | none => (s, "bad-op")
+  | ["chunks", n, c] =>
+    match n.toNat?, unhexB c with
+    | some n, some c => (s, " ".intercalate ("c" :: (chunks n c).map (fun x => toString x.length)))
+    | _, _ => (s, "bad-op")
+  | ["pack", d, p, b, dg] =>
+    match (if d == "h5" then some Driver.h5 else if d == "ih5" then some Driver.ih5 else none),
+          unhexS p, unhexB b with
+    | some d, some p, some b =>
+      let s' := { s with tbl := (b, dg.toList) :: s.tbl }
+      match packFile (mkHL s') d s'.store p b with
+      | .ok st => ({ s' with store := st }, "ok")
+      | .error e => (s', showErr e)
+    | _, _, _ => (s, "bad-op")
+  | ["read", p] =>
+    match unhexS p with
+    | some p =>
+      (s, match readFile s.store p with
+          | some (b, some m) => s!"some {hexB b} {m.contentSize} {String.ofList m.sha256}"
+          | some (b, none) => s!"some {hexB b} nometa"
+          | none => "none")
+    | none => (s, "bad-op")
   | _ => (s, "bad-op")
 
-def main : IO Unit := Drv.run () step
+def main : IO Unit := Drv.run ({} : St) step
